@@ -3,6 +3,7 @@ import Ptk.Model.C12
 import Ptk.Model.C12Orig
 import Ptk.Model.C12Tree
 import Ptk.Model.C12Session
+import Ptk.Model.C12Steps
 open Ptk Ptk.Proto Ptk.C12
 
 /-- `N` or a natural number -/
@@ -44,14 +45,6 @@ def decAlign (tok : String) : Option Align :=
   | "3" => some .justify
   | _ => none
 
-/-- the first fuel tried: above the number of loop iterations / generator micro-steps
-    normally needed (each iteration that does not grow a child is followed by a growing one
-    within `n * (maxW + 1)` yields); `untilAnswer` doubles it if it was not enough -/
-def fuelFor (dims : List Dim) (avail : Nat) : Nat :=
-  let n := dims.length
-  let mw := maxOf (dims.map (·.weight))
-  4 * (avail + 2) * (n + 2) * (mw + 2) + 64
-
 def encOutcome : Outcome → String
   | .tooSmall => "small"
   | .hang => "err:Hang"
@@ -88,38 +81,37 @@ def decReq (dir al : String) (rest : List String) : Option (Option Req × List S
 
 instance : Inhabited Outcome := ⟨.hang⟩
 
-/-- Run the model with growing fuel until it answers.  `Ptk.Props.C12.divide_terminates`
-    guarantees that this search stops for valid dimensions and `divide_fuel_independent` that the
-    answer found is the answer for every larger fuel; the cap only protects the driver. -/
-partial def untilAnswer (f : Nat → Outcome) (fuel : Nat) : Outcome :=
-  match f fuel with
-  | .hang => if fuel > 2 ^ 26 then .hang else untilAnswer f (2 * fuel)
-  | r => r
-
-def runDivide (r : Req) (avail : Nat) (done : Bool) : Outcome :=
+/-- ONE run of the counted model with the proved fuel `fuelBound`
+    (`Ptk.Props.C12Fuel.divide_terminates_bound`: never `.hang` for valid dimensions;
+    `divideC_fst`: the first component is `divide`).  Second component: the number of loop
+    iterations, i.e. of `next(generator)` calls in `_grow_sizes`. -/
+def runDivideC (r : Req) (avail : Nat) (done : Bool) : Outcome × Nat :=
   let all := allChildren r.al r.filler r.pad r.children
-  untilAnswer (fun fuel =>
-    if r.horizontal then divideH fuel r.al r.filler r.pad r.children avail done
-    else divideV fuel r.al r.filler r.pad r.children avail) (fuelFor all avail)
+  let fuel := fuelBound all avail
+  if r.horizontal then divideHC fuel r.al r.filler r.pad r.children avail done
+  else divideVC fuel r.al r.filler r.pad r.children avail
+
+def runDivide (r : Req) (avail : Nat) (done : Bool) : Outcome := (runDivideC r avail done).1
 
 /-- the pre-fix algorithm (`Ptk.Model.C12Orig`) on the same request; only meaningful — and only
     asked for by the harness — when every weight is positive, where
-    `Ptk.Props.C12Orig.fix_preserves_positive` says it must agree with the fixed code -/
+    `Ptk.Props.C12Orig.fix_preserves_positive` says it must agree with the fixed code and
+    `Ptk.Props.C12OrigFuel.divideOrig_terminates_bound` that ONE run with `fuelBound` answers -/
 def runDivideOrig (r : Req) (avail : Nat) (done : Bool) : String :=
   let all := allChildren r.al r.filler r.pad r.children
   if all.any (·.weight == 0) then "n/a"
   else if r.horizontal then
     if r.children.isEmpty then encOutcome (.ok [])
-    else encOutcome (untilAnswer (fun fuel => divideOrig fuel all avail (!done)) (fuelFor all avail))
+    else encOutcome (divideOrig (fuelBound all avail) all avail (!done))
   else if all.isEmpty then encOutcome (.ok [])
-  else encOutcome (untilAnswer (fun fuel => divideOrig fuel all avail true) (fuelFor all avail))
+  else encOutcome (divideOrig (fuelBound all avail) all avail true)
 
 /-- the pre-fix algorithm with ONE bounded run (no fuel doubling), for any weights:
-    `err:Hang` when `8 * fuelFor` is not enough, `err:ValueError` when no weight is positive.
+    `err:Hang` when `8 * fuelBound` is not enough, `err:ValueError` when no weight is positive.
     Used to replay the defect F4 against a tree that does not have the fix. -/
 def runDivideOrigBounded (r : Req) (avail : Nat) (done : Bool) : String :=
   let all := allChildren r.al r.filler r.pad r.children
-  let fuel := 8 * fuelFor all avail
+  let fuel := 8 * fuelBound all avail
   if r.horizontal then
     if r.children.isEmpty then encOutcome (.ok [])
     else encOutcome (divideOrig fuel all avail (!done))
@@ -170,6 +162,37 @@ partial def parseNode : List String → Option (Node × List String)
       let (cs, rest) ← parseNodes (← decNat n) rest
       pure (.vsplit al (← specDim sp) cs, rest)
     | [] => none
+  | "X" :: id :: rest => do
+    -- `X id <spec w> <spec h> cw ch dew deh`: a window with content and `dont_extend_*`
+    let id ← decNat id
+    let (sw, rest) ← decSpec rest
+    let (sh, rest) ← decSpec rest
+    match rest with
+    | cw :: ch :: dew :: deh :: rest =>
+      pure (.winx id ⟨sw.1, sw.2.1, sw.2.2.1, sw.2.2.2⟩ ⟨sh.1, sh.2.1, sh.2.2.1, sh.2.2.2⟩
+        (← decOptNat cw) (← decOptNat ch) (← decBool dew) (← decBool deh), rest)
+    | _ => none
+  | "C" :: on :: rest => do
+    let on ← decBool on
+    let (c, rest) ← parseNode rest
+    pure (.cond on c, rest)
+  | "Y" :: rest => do
+    -- `DynamicContainer(lambda: node)`: pure delegation = a container without explicit sizes
+    let (c, rest) ← parseNode rest
+    pure (.sized none none c, rest)
+  | "S" :: fw :: rest => do
+    -- `S fw <spec w> fh <spec h> node`: explicit `width=` / `height=` on the split `node`
+    let fw ← decBool fw
+    let (sw, rest) ← decSpec rest
+    match rest with
+    | fh :: rest =>
+      let fh ← decBool fh
+      let (sh, rest) ← decSpec rest
+      let (c, rest) ← parseNode rest
+      let w ← (if fw then (mkDim sw.1 sw.2.1 sw.2.2.1 sw.2.2.2).map some else some none)
+      let h ← (if fh then (mkDim sh.1 sh.2.1 sh.2.2.1 sh.2.2.2).map some else some none)
+      pure (.sized w h c, rest)
+    | [] => none
   | _ => none
 partial def parseNodes : Nat → List String → Option (List Node × List String)
   | 0, rest => some ([], rest)
@@ -186,15 +209,7 @@ def encTag : Tag → String
   | .remaining => "r"
   | .tooSmall => "s"
 
-/-- grow the fuel until every inner division answers (cf. `untilAnswer`) -/
-partial def untilSome {α : Type} (f : Nat → Option α) (fuel : Nat) : Option α :=
-  match f fuel with
-  | some a => some a
-  | none => if fuel > 2 ^ 24 then none else untilSome f (2 * fuel)
-
-def rootTag : Node → Tag
-  | .win id _ _ => .user id
-  | _ => .user 0
+def rootTag : Node → Tag := tagOf
 
 /-! one split object, several calls: `sess h|v k (al done avail <spec pad> n (id <spec>)*)^k` -/
 
@@ -225,11 +240,17 @@ def decCalls : Nat → List String → Option (List Call × List String)
     | [] => none
   | _, _ => none
 
-instance : BEq Outcome := ⟨fun a b => decide (a = b)⟩
-
-partial def sessionUntilAnswer (f : Nat → List Outcome) (fuel : Nat) : List Outcome :=
-  let r := f fuel
-  if r.any (· == .hang) && fuel ≤ 2 ^ 26 then sessionUntilAnswer f (2 * fuel) else r
+/-- `N` | `I n` | `D <spec>` | `F <anydim>` (a callable returning ...) -/
+partial def parseAnyDim : List String → Option (AnyDim × List String)
+  | "N" :: rest => some (.none, rest)
+  | "I" :: n :: rest => do pure (.int (← decNat n), rest)
+  | "D" :: rest => do
+    let (s, rest) ← decSpec rest
+    pure (.dim ⟨s.1, s.2.1, s.2.2.1, s.2.2.2⟩, rest)
+  | "F" :: rest => do
+    let (f, rest) ← parseAnyDim rest
+    pure (.call f, rest)
+  | _ => none
 
 def handle : List String → String
   | ["dim", a, b, c, d] =>
@@ -240,6 +261,18 @@ def handle : List String → String
     match decSpec [a, b, c, d] with
     | some ((mn, mx, w, pr), _) => encDim (windowDim mn mx w pr)
     | none => "bad-op"
+  | ["mrg", a, b, c, d, content, de] =>
+    -- `Window._merge_dimensions(Dimension(a, b, c, d), lambda: content, de)`
+    match decSpec [a, b, c, d], decOptNat content, decBool de with
+    | some ((mn, mx, w, pr), _), some content, some de => encDim (mergeDims ⟨mn, mx, w, pr⟩ content de)
+    | _, _, _ => "bad-op"
+  | "todim" :: rest =>
+    match parseAnyDim rest with
+    | some (a, []) =>
+      match toDimension a with
+      | some d => encDim (some d) ++ (if d.isZero then " zero" else " nonzero")
+      | none => "err:ValueError"
+    | _ => "bad-op"
   | "sum" :: rest =>
     match decCountedSpecs rest with
     | some (specs, []) =>
@@ -266,9 +299,24 @@ def handle : List String → String
     | _, _ => "bad-op"
   | "div" :: dir :: al :: done :: avail :: rest =>
     match decBool done, decNat avail, decReq dir al rest with
-    | some done, some avail, some (some r, []) => encOutcome (runDivide r avail done)
+    | some done, some avail, some (some r, []) =>
+      -- sizes, the number of loop iterations performed, and the proved bound for this input
+      let (o, it) := runDivideC r avail done
+      let all := if r.horizontal && r.children.isEmpty then [] else allChildren r.al r.filler r.pad r.children
+      match o with
+      | .ok _ => encOutcome o ++ s!" it={it} bound={stepBound all avail}"
+      | _ => encOutcome o
     | some _, some _, some (none, []) => "err:ValueError"
     | _, _, _ => "bad-op"
+  | "bnd" :: dir :: al :: _done :: avail :: rest =>
+    -- the proved bounds only (the model is NOT run): used for inputs with huge weights, where
+    -- `Ptk.Props.C12Slow.slow_hangs` shows that the loops really need that many iterations
+    match decNat avail, decReq dir al rest with
+    | some avail, some (some r, []) =>
+      let all := if r.horizontal && r.children.isEmpty then [] else allChildren r.al r.filler r.pad r.children
+      s!"bound={stepBound all avail} fuel={fuelBound all avail}"
+    | some _, some (none, []) => "err:ValueError"
+    | _, _ => "bad-op"
   | "odiv" :: dir :: al :: done :: avail :: rest =>
     match decBool done, decNat avail, decReq dir al rest with
     | some done, some avail, some (some r, []) => runDivideOrig r avail done
@@ -284,17 +332,14 @@ def handle : List String → String
     | some k =>
       match decCalls k rest, fillerDim (dir == "h") with
       | some (calls, []), some filler =>
-        let start := calls.foldl (fun m c => Nat.max m
-          (fuelFor (allChildren c.al filler c.pad c.dims) c.avail)) 64
-        " ; ".intercalate ((sessionUntilAnswer
-          (fun fuel => runSession fuel (dir == "h") filler none calls) start).map encOutcome)
+        " ; ".intercalate ((runSessionB (dir == "h") filler none calls).map encOutcome)
       | _, _ => "bad-op"
     | none => "bad-op"
   | "tree" :: x :: y :: w :: h :: rest =>
     match decNats [x, y, w, h], parseNode rest with
     | some [x, y, w, h], some (n, []) =>
-      match untilSome (fun fuel => render fuel (n.depth + 1) (rootTag n) n ⟨x, y, w, h⟩)
-          (64 * (w + h + 4)) with
+      -- ONE run with the proved fuel (`Ptk.Props.C12TreeFuel.render_treeFuel`)
+      match render (treeFuel n w h) (n.depth + 1) (rootTag n) n ⟨x, y, w, h⟩ with
       | some rs => "ok " ++ encList (fun (p : Tag × Rect) =>
           s!"{encTag p.1}:{p.2.x},{p.2.y},{p.2.w},{p.2.h}") rs
       | none => "err:Hang"
@@ -302,13 +347,12 @@ def handle : List String → String
   | "tpw" :: avail :: rest =>
     match decNat avail, parseNode rest with
     | some avail, some (n, []) =>
-      encDim (untilSome (fun fuel => prefW fuel (n.depth + 1) n avail) (64 * (avail + 4)))
+      encDim (prefW 0 (n.depth + 1) n avail)   -- `prefW_total`: no division, no fuel needed
     | _, _ => "bad-op"
   | "tph" :: width :: availH :: rest =>
     match decNat width, decNat availH, parseNode rest with
     | some width, some availH, some (n, []) =>
-      encDim (untilSome (fun fuel => prefH fuel (n.depth + 1) n width availH)
-        (64 * (width + availH + 4)))
+      encDim (prefH (treeFuel n width availH) (n.depth + 1) n width availH)   -- `prefH_treeFuel`
     | _, _, _ => "bad-op"
   | "lay" :: dir :: al :: done :: x :: y :: w :: h :: rest =>
     match decBool done, decNats [x, y, w, h], decReq dir al rest with
